@@ -104,9 +104,47 @@ class Render:
         raise ValueError(s)
 
 
+def levels_of(case):
+    """The reference level by level (one level per part of the name): [{"dims":[..], "subs":[..]}, ..]."""
+    if case.get("levels"):
+        return case["levels"]
+    return [{"dims": case["dims"], "subs": case["subs"]}]
+
+
+def all_subs(case):
+    return [s for l in levels_of(case) for s in l["subs"]]
+
+
+def eff_dims(case):
+    return [d for l in levels_of(case) for d in l["dims"]]
+
+
+def symbol_name(case):
+    k = len(levels_of(case))
+    return "x" if k == 1 else ".".join(["c%d" % i for i in range(k - 1)] + ["v"])
+
+
 def render(case):
     r = Render()
-    ref = "x[%s]" % ",".join(r.sub(s) for s in case["subs"]) if case["subs"] else "x"
+    levels = levels_of(case)
+
+    def subtxt(l):
+        return "[%s]" % ",".join(r.sub(s) for s in l["subs"]) if l["subs"] else ""
+
+    def dimtxt(l):
+        return "[%s]" % ",".join(map(str, l["dims"])) if l["dims"] else ""
+    if len(levels) == 1:
+        ref = "x" + subtxt(levels[0])
+        classes = ""
+        decl = "Real x%s;" % dimtxt(levels[0])
+    else:
+        k = len(levels)
+        ref = ".".join(["c%d%s" % (i, subtxt(levels[i])) for i in range(k - 1)] + ["v" + subtxt(levels[-1])])
+        # innermost class first: K<k-1> holds the variable, K<i> holds component c<i> of class K<i+1>
+        classes = "model K%d Real v%s; Real w; end K%d; " % (k - 1, dimtxt(levels[-1]), k - 1)
+        for i in range(k - 2, 0, -1):
+            classes += "model K%d K%d c%d%s; Real w; end K%d; " % (i, i + 1, i, dimtxt(levels[i]), i)
+        decl = "K1 c0%s;" % dimtxt(levels[0])
     ctx = case.get("ctx", "eq")
     if ctx == "eq":
         eq = "%s = 0;" % ref
@@ -118,9 +156,7 @@ def render(case):
         raise ValueError(ctx)
     if case.get("loop"):
         eq = "for i in %s loop %s end for;" % (":".join(r.ints(s) for s in case["loop"]), eq)
-    dims = case["dims"]
-    decl = "Real x%s;" % ("[%s]" % ",".join(map(str, dims)) if dims else "")
-    return "model M %s %s Real y; equation %s end M;" % (" ".join(r.decls), decl, eq)
+    return "%smodel M %s %s Real y; equation %s end M;" % (classes, " ".join(r.decls), decl, eq)
 
 
 # ------------------------------------------------------------------------------------------------
@@ -145,7 +181,8 @@ def run_real(case):
         m = gen.generate(tree, "M")
     except Exception as e:
         return {"o": "error", "exc": type(e).__name__}
-    dims = case["dims"]
+    dims = eff_dims(case)
+    xname = symbol_name(case)
     n1 = dims[0] if dims else 1
     n2 = dims[1] if len(dims) > 1 else 1
     try:
@@ -153,9 +190,9 @@ def run_real(case):
         for v in m.states + m.alg_states + m.parameters + m.constants + m.inputs:
             s = v.symbol
             syms.append(s)
-            if s.name() == "x":
+            if s.name() == xname:
                 if tuple(s.shape) != (n1, n2):
-                    return {"o": "other", "detail": "symbol x has shape %s" % (s.shape,)}
+                    return {"o": "other", "detail": "symbol %s has shape %s" % (xname, s.shape)}
                 args.append(ca.DM(np.array([[float(16 ** (r + n1 * c)) for c in range(n2)] for r in range(n1)])))
             else:
                 args.append(ca.DM.zeros(*s.shape))
@@ -232,7 +269,8 @@ def denoted(sub, n, v):
 
 def spec(case):
     """-> ("error", why) | ("rows", rows) | ("free", why)   (free: nothing denoted; error or nothing selected)"""
-    dims, subs, loop = case["dims"], case["subs"], case.get("loop")
+    levels, loop = levels_of(case), case.get("loop")
+    subs = all_subs(case)
     ctx = case.get("ctx", "eq")
     if loop:
         vals = m_range(ival(loop[0]), 1, ival(loop[1])) if len(loop) == 2 else \
@@ -243,11 +281,15 @@ def spec(case):
         vals = [None]
         if any(s[0] == "loop" for s in subs):
             return ("error", "loop index outside a loop")
-    if subs and not dims:
-        return ("error", "subscript on a scalar")
-    if len(subs) > len(dims):
-        return ("error", "more subscripts than dimensions")
-    full = list(subs) + [["all"]] * (len(dims) - len(subs))
+    # every subscript is written on one part of the name and checked against that part's own dimensions
+    full, dims = [], []
+    for k, l in enumerate(levels):
+        if l["subs"] and not l["dims"]:
+            return ("error", "subscript on a scalar" + (" (part %d of the name)" % (k + 1) if len(levels) > 1 else ""))
+        if len(l["subs"]) > len(l["dims"]):
+            return ("error", "more subscripts than dimensions" + (" (part %d of the name)" % (k + 1) if len(levels) > 1 else ""))
+        full += list(l["subs"]) + [["all"]] * (len(l["dims"]) - len(l["subs"]))
+        dims += list(l["dims"])
     if not vals:
         return ("free", "loop without iterations")
     rows = []
@@ -287,7 +329,7 @@ def tolerated_spelling(case):
     """Spellings the backend cannot evaluate, whatever the subscripts denote (ASSUMPTIONS): a literal with a unary
     minus inside a subscript (get_integer raises on it; in this window it only matters for descending three-part
     ranges), and loop ranges whose start / step are not integer literals (ForLoop.__init__ reads `.value`)."""
-    for s in case.get("subs", []):
+    for s in all_subs(case):
         if s[0] in ("idx", "range", "range3") and any(x[0] == "neg" for x in s[1:]):
             return True
     loop = case.get("loop")
@@ -315,6 +357,11 @@ def to_model(case, cfg):
         if s[0] == "range3":
             return ["range3", mi(s[1]), mi(s[2]), mi(s[3])]
         return list(s)
+    if case.get("levels"):
+        return {"op": "index.outcome", "cfg": cfg,
+                "levels": [{"dims": l["dims"], "subs": [ms(s) for s in l["subs"]]} for l in case["levels"]],
+                "loop": [mi(s) for s in case["loop"]] if case.get("loop") else None,
+                "inloop": bool(case.get("loop")), "sum": case.get("ctx") == "sum"}
     return {"op": "index.outcome", "cfg": cfg, "dims": case["dims"], "subs": [ms(s) for s in case["subs"]],
             "loop": [mi(s) for s in case["loop"]] if case.get("loop") else None,
             "inloop": bool(case.get("loop")), "sum": case.get("ctx") == "sum"}
@@ -365,7 +412,8 @@ def check_case(ctx, case, cfg, drv, stream="main"):
     real = run_real(case)
     kind, want = spec(case)
     ctx.count("stream:" + stream)
-    ctx.count("dims:%d" % len(case["dims"]))
+    ctx.count("dims:%d" % len(eff_dims(case)))
+    ctx.count("name-parts:%d" % len(levels_of(case)))
     ctx.count("ctx:" + case.get("ctx", "eq") + ("+loop" if case.get("loop") else ""))
     ctx.count("spec:" + kind)
     ctx.count("real:" + (real["o"] if real["o"] != "error" else "error:" + real["exc"]))
@@ -430,13 +478,22 @@ def gen_1d_equation(sizes, ctxs):
                                "loop": None, "ctx": cx}
 
 
+def loop_offsets(n, mul, offs):
+    """Offsets `off` such that the subscript mul*i + off takes the value 1 + o (ascending, mul > 0) or n + o
+    (descending, mul < 0) at i = 1, for o in `offs`: the subscript's run straddles both ends of 1..n."""
+    if mul > 0:
+        return [1 + o - mul for o in offs]
+    return [n + o - mul for o in offs]
+
+
 def gen_1d_loop(sizes, ctxs, offs=(-2, -1, 0, 1, 2), muls=(1,)):
+    """Every loop range a:b inside 0..n+1 with a subscript mul*i+off; descending subscripts (mul < 0) included."""
     for n in sizes:
         for cx in ctxs:
             for a in range(0, n + 2):
                 for b in range(0, n + 2):
                     for mul in muls:
-                        for off in offs:
+                        for off in loop_offsets(n, mul, offs):
                             yield {"dims": [n], "subs": [["loop", mul, off]], "loop": [["lit", a], ["lit", b]], "ctx": cx}
 
 
@@ -449,6 +506,8 @@ def gen_scalar_and_arity():
             yield {"dims": [n], "subs": [["idx", ["lit", 1]], s], "loop": None, "ctx": "eq"}
             yield {"dims": [n, 2], "subs": [["idx", ["lit", 1]], s, ["idx", ["lit", 1]]], "loop": None, "ctx": "eq"}
     yield {"dims": [], "subs": [["loop", 1, 0]], "loop": [["lit", 1], ["lit", 2]], "ctx": "eq"}
+    yield {"dims": [], "subs": [["loop", 1, 0]], "loop": [["lit", 1], ["lit", 1]], "ctx": "eq"}
+    yield {"dims": [], "subs": [["loop", 1, 1]], "loop": [["lit", 0], ["lit", 0]], "ctx": "eq"}
     yield {"dims": [2], "subs": [["loop", 1, 0]], "loop": None, "ctx": "eq"}
     yield {"dims": [2], "subs": [["loop", 1, 0], ["idx", ["lit", 1]]], "loop": [["lit", 1], ["lit", 2]], "ctx": "eq"}
 
@@ -479,11 +538,14 @@ def gen_2d_loop(shapes):
     for (n, m) in shapes:
         for a in range(0, max(n, m) + 2):
             for b in range(max(a - 1, 0), max(n, m) + 2):
-                for off in (-1, 0, 1):
-                    for f in fixed_subs(m, rich=False):
-                        yield {"dims": [n, m], "subs": [["loop", 1, off], f], "loop": [["lit", a], ["lit", b]], "ctx": "eq"}
-                    for f in fixed_subs(n, rich=False):
-                        yield {"dims": [n, m], "subs": [f, ["loop", 1, off]], "loop": [["lit", a], ["lit", b]], "ctx": "eq"}
+                for mul in (1, -1):
+                    for o in (-1, 0, 1):
+                        for f in fixed_subs(m, rich=False):
+                            yield {"dims": [n, m], "subs": [["loop", mul, loop_offsets(n, mul, [o])[0]], f],
+                                   "loop": [["lit", a], ["lit", b]], "ctx": "eq"}
+                        for f in fixed_subs(n, rich=False):
+                            yield {"dims": [n, m], "subs": [f, ["loop", mul, loop_offsets(m, mul, [o])[0]]],
+                                   "loop": [["lit", a], ["lit", b]], "ctx": "eq"}
 
 
 def gen_fixed_in_loop(sizes):
@@ -526,6 +588,51 @@ def gen_fewer_subscripts(shapes):
                     yield {"dims": [n, m], "subs": [["loop", 1, off]], "loop": [["lit", a], ["lit", b]], "ctx": "eq"}
 
 
+def sub_vocabulary(n):
+    """A small vocabulary of subscripts for one dimension of size n (valid, both ends out of range, slices)."""
+    out = [["all"], ["idx", ["lit", 0]], ["idx", ["lit", 1]], ["idx", ["lit", n]], ["idx", ["lit", n + 1]],
+           ["range", ["lit", 1], ["lit", n]], ["range", ["lit", 0], ["lit", 1]], ["range", ["lit", 2], ["lit", n + 1]]]
+    if n > 1:
+        out.append(["idx", ["lit", 2]])
+    return out
+
+
+NESTED_SHAPES = [
+    [[], [3]], [[], [2, 2]], [[2], [3]], [[2], []], [[3], [2]], [[], [], [3]], [[], [2], [3]], [[2], [], [2]], [[], [2, 3]],
+    [[2, 2], []], [[1], [1]], [[], []], [[], [], []],
+]
+
+
+def random_nested(rng):
+    """A reference through components (d.v[..], c[..].v[..], g.f[..].v[..]): at every part of the name between no
+    subscript and one more than the part has dimensions (at most one part with too many), optionally one
+    loop-dependent subscript."""
+    shape = rng.choice(NESTED_SHAPES)
+    over = rng.randrange(len(shape)) if rng.random() < 0.45 else None
+    levels = []
+    for k, dims in enumerate(shape):
+        if k == over:
+            nsub = len(dims) + rng.choice([1, 1, 2])
+        else:
+            nsub = rng.choice([len(dims)] * 3 + list(range(len(dims) + 1)))
+        subs = []
+        for j in range(nsub):
+            n = dims[j] if j < len(dims) else rng.choice([1, 2, 3])
+            subs.append(rng.choice(sub_vocabulary(n)) if rng.random() < 0.85 else ["idx", ["par", rng.randint(-1, n + 1)]])
+        levels.append({"dims": list(dims), "subs": subs})
+    case = {"levels": levels, "loop": None, "ctx": "eq"}
+    slots = [(k, j) for k, l in enumerate(levels) for j in range(len(l["subs"]))]
+    if slots and rng.random() < 0.3:
+        k, j = rng.choice(slots)
+        dims = levels[k]["dims"]
+        n = dims[j] if j < len(dims) else 2
+        mul = rng.choice([1, 1, -1])
+        levels[k]["subs"][j] = ["loop", mul, loop_offsets(n, mul, [rng.choice([-1, 0, 0, 1])])[0]]
+        a = rng.randint(0, 2)
+        case["loop"] = [["lit", a], ["lit", rng.randint(a, n + 1)]]
+    return case
+
+
 def gen_loop_spellings(sizes):
     for n in sizes:
         for a, b in ((1, n), (0, n), (1, n + 1), (2, 1)):
@@ -561,17 +668,22 @@ def run(ctx):
     plan = []
     # exhaustive 1-D windows
     plan.append(("1d-eq", list(gen_1d_equation((1, 2, 3, 4), ("eq",))), None))
-    plan.append(("1d-eq-rhs-sum", list(gen_1d_equation((1, 2, 3) if quick else (1, 2, 3, 4), ("rhs", "sum"))), 450 if quick else None))
     plan.append(("1d-loop", list(gen_1d_loop((1, 2, 3, 4), ("eq",))), None))
+    plan.append(("1d-loop-descending", list(gen_1d_loop((1, 2, 3, 4), ("eq",), muls=(-1,))), None))
+    plan.append(("1d-loop-steps", list(gen_1d_loop((1, 2, 3, 4), ("eq", "rhs"), muls=(2, -2))), 200 if quick else None))
+    nested = [random_nested(rng) for _ in range(600 if quick else 12000)]
+    nested = [c for c in nested if len(eff_dims(c)) <= 2]
+    plan.append(("nested", nested, None))
+    plan.append(("1d-eq-rhs-sum", list(gen_1d_equation((1, 2, 3) if quick else (1, 2, 3, 4), ("rhs", "sum"))), 350 if quick else None))
     plan.append(("1d-loop-rhs", list(gen_1d_loop((1, 2, 3), ("rhs",))), 300 if quick else None))
     plan.append(("scalar+arity", list(gen_scalar_and_arity()), None))
     plan.append(("fixed-in-loop", list(gen_fixed_in_loop((1, 2, 3))), 250 if quick else None))
     plan.append(("loop-spellings", list(gen_loop_spellings((1, 2, 3, 4))), 250 if quick else None))
-    plan.append(("three-part", list(gen_three_part((1, 2, 3) if quick else (1, 2, 3, 4))), 350 if quick else None))
+    plan.append(("three-part", list(gen_three_part((1, 2, 3) if quick else (1, 2, 3, 4))), 300 if quick else None))
     plan.append(("fewer-subscripts", list(gen_fewer_subscripts(((2, 2), (2, 3), (3, 2)))), 150 if quick else None))
     shapes = [(1, 1), (1, 2), (2, 1), (2, 2), (2, 3), (3, 2), (3, 3)]
-    plan.append(("2d-eq", list(gen_2d_equation(shapes if quick else shapes + [(1, 4), (4, 2), (4, 4)])), 800 if quick else 60000))
-    plan.append(("2d-loop", list(gen_2d_loop(shapes if quick else shapes + [(4, 2), (2, 4)])), 500 if quick else 40000))
+    plan.append(("2d-eq", list(gen_2d_equation(shapes if quick else shapes + [(1, 4), (4, 2), (4, 4)])), 600 if quick else 60000))
+    plan.append(("2d-loop", list(gen_2d_loop(shapes if quick else shapes + [(4, 2), (2, 4)])), 400 if quick else 40000))
     ctx.extra["exhaustive"] = {}
     for name, cases, cap in plan:
         full = cap is None or len(cases) <= cap
@@ -583,7 +695,9 @@ def run(ctx):
                 ctx.notes.append("stream %s stopped by the time budget after %d of %d cases" % (name, done, len(cases)))
                 full = False
                 break
-            check_case(ctx, case, cfg, drv, finding_class(case))
+            from harness import known_c23
+            check_case(ctx, case, cfg, drv, "F5-loop-index-on-scalar-part" if known_c23.loop_index_on_scalar_part(case)
+                       else "nested" if case.get("levels") else finding_class(case))
             done += 1
         ctx.count("plan:" + name, done)
         ctx.extra["exhaustive"][name] = bool(full)
